@@ -130,6 +130,7 @@ func cmdCheck(args []string) int {
 	}
 	os.RemoveAll(filepath.Join(o.out, "replays", o.prop))
 	rep := runProperty(w, &o)
+	rep.Standins = runStandins(&o)
 	rep.WallS = time.Since(start).Seconds()
 	return rep.finish(&o)
 }
@@ -146,6 +147,7 @@ type Report struct {
 	Externs    []string
 	Vacuity    []string
 	Unstable   []string
+	Standins   []*StandinResult
 }
 
 func runProperty(w *World, o *checkOpts) *Report {
@@ -563,6 +565,51 @@ func (rep *Report) finish(o *checkOpts) int {
 		fmt.Printf("VIOLATION property=%s replay=%s%s\n", o.prop, path, suffix)
 		exit = 1
 	}
+	// bounded stand-ins
+	known := loadKnownFindings(o.out)
+	var boundedEv []interface{}
+	for _, sr := range rep.Standins {
+		if sr.Error != "" {
+			rep.Errors = append(rep.Errors, "bounded stand-in "+sr.Spec.Test+": "+sr.Error)
+		}
+		var fresh []string
+		for _, mm := range sr.Mismatches {
+			isKnown := false
+			for _, kf := range known {
+				if kf.Status != "open" || !(kf.Property == o.prop || contains(kf.Properties, o.prop)) {
+					continue
+				}
+				for _, pat := range kf.Match {
+					if strings.Contains(mm, pat) {
+						isKnown = true
+					}
+				}
+			}
+			if isKnown {
+				sr.Known = append(sr.Known, mm)
+			} else {
+				fresh = append(fresh, mm)
+			}
+		}
+		for _, mm := range sr.Known {
+			fmt.Printf("KNOWN-FINDING: property=%s %s\n", o.prop, mm)
+		}
+		for i, mm := range fresh {
+			if i >= 10 {
+				break
+			}
+			violations++
+			os.MkdirAll(replayDir, 0o755)
+			path := filepath.Join(replayDir, fmt.Sprintf("bounded-%s-%d.json", sr.Spec.Test, i+1))
+			data, _ := json.MarshalIndent(map[string]interface{}{"property": o.prop, "obligation": "bounded/" + sr.Spec.Test, "failing_input": mm, "replay_cmd": sr.Cmd, "what": sr.Spec.What}, "", " ")
+			os.WriteFile(path, data, 0o644)
+			fmt.Printf("FAILED bounded stand-in %s: %s\n", sr.Spec.Test, mm)
+			fmt.Printf("VIOLATION property=%s replay=%s\n", o.prop, path)
+			exit = 1
+		}
+		sr.Mismatches = fresh
+		boundedEv = append(boundedEv, sr)
+	}
 	if len(rep.Errors) > 0 {
 		exit = 1
 		os.MkdirAll(replayDir, 0o755)
@@ -609,6 +656,7 @@ func (rep *Report) finish(o *checkOpts) int {
 			"by_backend":    rep.ByBackend,
 			"solver_time_s": float64(rep.SolverMs) / 1000,
 			"vacuity_failures": rep.Vacuity,
+			"bounded":          boundedEv,
 		},
 		"assumptions": assumptions,
 		"wall_s":      rep.WallS,
